@@ -260,6 +260,14 @@ def step (w : RWorld) (toks : List String) : Option (RWorld × String) :=
   | ["ev"] => some <| withServer w fun s => let (s', e) := s.getEvent; pure (s', eventStr e)
   | ["ids"] => some <| withServer w fun s =>
       pure (s, s!"ids [{joinWith "," (s.clientsId.map toString)}] disc [{joinWith "," (s.disconnectionsId.map toString)}]")
+  | ["sq", id] => some <| match id.toNat? with
+    | some id => withServer w fun s =>
+      let reason := match SMap.find? s.conns id with
+        | none => "none"
+        | some c => match c.disconnectReason with | none => "none" | some r => r.name
+      let isC := match SMap.find? s.conns id with | none => false | some c => c.isConnected
+      pure (s, s!"has={!s.conns.isEmpty} n={s.clientsId.length} is={isC} reason={reason}")
+    | none => (w, "bad-op")
   | ["send", who, ch, hex] => some <| match parseWho who, ch.toNat?, fromHex hex with
     | some (.client h), some ch, some m => withClient w h fun c => do let c' ← c.sendMessage ch m; pure (c', "ok")
     | some (.sconn id), some ch, some m => withServer w fun s => do let s' ← s.sendMessage id ch m; pure (s', "ok")
